@@ -13,7 +13,7 @@
    in Coq for the examples at the end (the missing piece is the round trip of
    snprintf("%d") / atoi, a lemma about NameModel.dec / atoi). *)
 From Coq Require Import List ZArith Bool.
-From RtoscV Require Import Ports.NameModel Ports.PathModel Ports.WalkModel Ports.WalkProofs Ports.WalkRegress.
+From RtoscV Require Import Match.PatSpec Match.MatchModel Ports.NameModel Ports.PathModel Ports.WalkModel Ports.WalkProofs Ports.WalkRegress.
 Import ListNotations.
 Local Open Scope Z_scope.
 
